@@ -586,6 +586,35 @@ func domTakeover(r *engine.Run, rule string) {
 			}
 		}
 	}
+	// every donor node handed to the iteration handler is taken over: no return of
+	// the handler skips insertForeignNode (a filter such as "only what lookups
+	// recorded as missing" drops the nodes below the topmost absent one)
+	for _, h := range f.AnonFuncs {
+		var ins *ssa.Call
+		engine.Instrs(h, func(in ssa.Instruction) {
+			if c, ok := in.(*ssa.Call); ok {
+				if sc := c.Call.StaticCallee(); sc != nil && sc.Name() == "insertForeignNode" {
+					ins = c
+				}
+			}
+		})
+		if ins == nil {
+			continue
+		}
+		skipped := ""
+		for _, ret := range engine.Returns(h) {
+			if ret.Block().Comment == "recover" || engine.InstrDominates(ins, ret) {
+				continue
+			}
+			// giving up with an error (a cancelled context) is not skipping
+			if len(ret.Results) == 1 && !nilConst(resultValue(ret, 0)) {
+				continue
+			}
+			skipped = r.P.Pos(ret.Pos())
+		}
+		r.Check(skipped == "", rule, fn(f)+"|every donor node taken over", r.P.Pos(ins.Pos()), "no return of the iteration handler skips the take-over of the node it was given",
+			"the handler MergeDB iterates the donor with returns ("+skipped+") without taking the node over: a filter on the donor's nodes (only keys recorded as missing, say) drops the nodes below the topmost absent one, so the repair leaves holes and the trie still reports missing nodes")
+	}
 	r.Check(installed, rule, fn(f)+"|root installed", r.P.Pos(f.Pos()), "the given root is installed on every path",
 		"MergeDB does not install the root it is given on every path (a guard such as 'only a non-empty root'): a state change that removes the last entries names the empty root, and a follower that keeps its old root while taking over the dead-node list reports every node below that root as dead - later rounds build on it and a prune wipes it")
 	r.Check(bad == "", rule, fn(f)+"|donor iterated", r.P.Pos(it.Pos()), "the iteration over the donor store dominates every return",
